@@ -80,3 +80,23 @@ func init() {
 		Technique:   "call-graph reachability from token entry points + per-class SSA guard/dominance rules + struct-tag (schema) lookup",
 	})
 }
+
+func init() {
+	ownExpl := "Ownership/effect analysis over the whole repository (SSA). origin(v) classifies every value as fresh, or as (a reference into) memory that belongs to a parameter, to a package-level variable, or to a token (reached through a value of static type Biscuit/Block), following field/index/load/slice/phi/closure-capture chains and accessor summaries (functions returning references into their arguments). Interprocedural summaries are computed to a fixpoint over the static+CHA call graph: MUTATES(f,i) - f writes (store, append base, copy destination, map update) through parameter i or passes it to a mutating parameter; RETAINS(f,i) - f stores a reference rooted at parameter i into a holder type that has mutating methods, or into a package variable. OWN-WRITE: no write instruction anywhere targets token-reached or package-level memory (append counts as a write regardless of capacity: capacity is a run-time quantity). OWN-MUT: at every call site, no argument that is a reference into a token or package variable (other than the *Biscuit/*Block itself) is bound to a MUTATES or RETAINS parameter of any resolved callee. OWN-CLONE: Clone/SplitOff/Build results and every Block literal assembled by a builder have only fresh reference components (make, new, append onto fresh, Clone results), so derived tokens, builders and authorizers work on storage disjoint from the token's."
+	defProperty(&Property{
+		ID:          "C08",
+		Rules:       []string{"OWN-WRITE", "OWN-MUT", "OWN-CLONE"},
+		Explanation: ownExpl + " Because each operation is shown in isolation to write only storage it freshly allocated (or its own mutable holder), the argument holds for every interleaving of build / create-block / add / build-block / append / seal / serialize / unmarshal / get-block-id / authorize over a family of tokens sharing ancestors.",
+		Decides:     "absence of any write to memory reachable from a token, a built block or a package variable after construction; independence (non-aliasing) of everything handed to builders, derived tokens and authorizers",
+		NotDecided:  "that equal values serialise equally (C07); exported accessors that hand internal slices to the caller (Checks()); reuse of a builder after Build (SplitOff truncates the builder's own table)",
+		Technique:   "interprocedural ownership / mutator-summary analysis over go/ssa with a static+CHA call graph",
+	})
+	defProperty(&Property{
+		ID:          "C19",
+		Rules:       []string{"OWN-WRITE", "OWN-MUT", "OWN-CLONE"},
+		Explanation: ownExpl + " For C19 this decides the write-freedom half: if no instruction reachable from the listed operations can write to storage reachable from the shared token, from shared parsed values passed as arguments, or from package variables, there is no write for any goroutine to race with, for every schedule.",
+		Decides:     "write-freedom of every operation on a shared token / shared package state (no data race is possible on token-reachable or package-level memory)",
+		NotDecided:  "that each goroutine's result equals the sequential one (follows from write-freedom plus determinism, C12); internals of participle parser instances and protobuf (documented concurrency-safe, trusted); the library's own worker goroutines after a timeout (C11)",
+		Technique:   "interprocedural ownership / mutator-summary analysis over go/ssa (write-freedom => race-freedom)",
+	})
+}
